@@ -201,6 +201,8 @@ def generate(rnd, tier, scale):
         for _ in range(rnd.randint(2, 5)):
             calls.append([rnd.randrange(len(fns)), rnd.randrange(len(srclists)), E.rand_limit(rnd, ("none", "int", "int", "frac", "bad"))])
         case = dict(k="hist", sources=sources, srclists=srclists, fns=fns, calls=calls)
+        if rnd.random() < 0.15:
+            case["prime"] = True
         if rnd.random() < 0.3 and all(sl.get("nkw", 0) <= len(sl["srcs"]) for sl in srclists):
             case["via"] = "foreach"  # the same histories through evaluation.foreach
         try:
